@@ -247,6 +247,9 @@ class ChangeScenario(Scenario):
                 w.merge(K, 'ns', args[0], {'metadata': {'annotations': {args[1]: args[2]}}})
             elif action == 'delete':
                 w.delete(K, 'ns', args[0])
+            elif action == 'labeldelete':     # kubectl label ... && kubectl delete ...: two writes back to back
+                w.merge(K, 'ns', args[0], {'metadata': {'labels': {args[1]: args[2]}}})
+                w.delete(K, 'ns', args[0])
             elif action == 'recreate':
                 w.delete(K, 'ns', args[0])
                 if w.get(K, 'ns', args[0]) is None:
